@@ -345,6 +345,7 @@ def run(ctx):
     ctx.rule("R01.d", "every named argument of a Parameter subclass' real __init__ is used (stored, forwarded or read)", floor=40)
     ctx.rule("R01.e", "every constraint slot of every Parameter type is read by a validator reachable from its _validate", floor=45)
     ctx.rule("R01.f", "bound comparisons are exact on the whole ordering domain (abstract interpretation against an oracle written from the property statement)", floor=5)
+    ctx.rule("R01.h", "None is accepted iff allow_None and any other value iff it has the declared value type, for 15 built-in types (abstract interpretation of the full validator, type predicates as abstract inputs)", floor=12)
     ctx.rule("R01.g", "every _validate_value override below Tuple checks isinstance(val, tuple) (itself or via super) before iterating the value", floor=3)
     ctx.not_decided += ["semantics of re.match / isinstance / `in` (trusted library operations: only that they are consulted is checked)",
                         "Selector membership under concurrent mutation of objects", "accept-iff-spec for value *types* (bool vs int, date vs datetime)"]
@@ -355,3 +356,5 @@ def run(ctx):
     rule_g(ctx)
     from checks.c01_bounds import rule_f
     rule_f(ctx)
+    from checks.c01_types import rule_h
+    rule_h(ctx)
